@@ -370,7 +370,7 @@ def main(check, argv=None):
 
     cls_count = {}
     for r, unknown in violating:
-        for c in sorted({v['cls'] for v in unknown}):
+        for c in sorted({v['cls'] + ''.join(f' {k}={v["facts"][k]}' for k in ('exc', 'where') if v['facts'].get(k)) for v in unknown}):
             cls_count[c] = cls_count.get(c, 0) + 1
     if cls_count:
         print(f'unknown violation classes (runs): {json.dumps(cls_count, sort_keys=True)}')
